@@ -242,7 +242,7 @@ func main() {
 			mand = append(mand, "seen:"+rn+":"+r)
 		}
 	}
-	n := run.N(3*coreCells, 40*coreCells)
+	n := run.N(3*coreCells, 80*coreCells)
 	if rc := run.ReplayCase(); rc >= 0 {
 		// a replay runs one case (on both routers, in fresh worlds); the coverage obligations do not apply to it
 		runCase(run, int(rc), pool{})
